@@ -213,6 +213,9 @@ register(
         ("sel_async", 3, gen_core("async", 22, ops_kw={"p_can": 0.25}, **_C02_COMMON)),
         ("sel_timers_async", 1, gen_core("async", 23, ops_kw={"p_can": 0.15, "p_adv": 0.25}, p_after=0.3, p_invoke=0.2, svc_kinds=("sync", "coro"), **_C02_COMMON)),
         ("sel_timers_sync", 1, gen_core("sync", 24, ops_kw={"p_can": 0.15, "p_adv": 0.25}, p_after=0.3, p_invoke=0.2, **_C02_COMMON)),
+        # candidates sharing a guard TYPE but differing in params / operands (parameterised, stateIn, composites)
+        ("sel_rich_sync", 2, gen_core("sync", 25, ops_kw={"p_can": 0.25}, rich_guards=True, w_missing_guard=0.0, **dict(_C02_COMMON, p_always=0.0))),
+        ("sel_rich_async", 2, gen_core("async", 26, ops_kw={"p_can": 0.25}, rich_guards=True, w_missing_guard=0.0, **dict(_C02_COMMON, p_always=0.0))),
     ],
     oracle=O.oracle_c02,
     level="exploration",
